@@ -1,9 +1,73 @@
 import DspVerif.Driver.Proto
-/-! driver handlers for C05 (stub: no correspondence cases handled yet) -/
+import DspVerif.Model.Guards
+/-! driver handlers for C05: `guard <entry> <sizes…>` → the outcome predicted by `Model/Guards.lean`
+(`ok <shape…>` / `ERR` / `UB:<reason>`; the last never matches the harness, which prints `ok`, `ERR` or `DIED`) -/
 namespace Dsp.Driver
-open Dsp.Proto
+open Dsp.Proto Dsp.Guards
+
+def parseCall (entry : String) (a : List Int) : Option Call :=
+  match entry, a with
+  | "binop", [x, y] => some (.binop x y)
+  | "cmp", [x, y] => some (.cmp x y)
+  | "samelen", [x, y] => some (.samelen x y)
+  | "idxlist", n :: k :: es => if es.length = k.toNat then some (.idxlist n es) else none
+  | "mask", n :: k :: bs => if bs.length = k.toNat then some (.mask n bs) else none
+  | "slice", [n, i1, i2, m] => some (.slice n i1 i2 m)
+  | "sasg_arr", [n, i1, i2, m, l] => some (.sasgArr n i1 i2 m l)
+  | "sasg_list", [n, i1, i2, m, l] => some (.sasgList n i1 i2 m l)
+  | "sasg_slice", [n, d1, d2, dm, n2, s1, s2, sm] => some (.sasgSlice n d1 d2 dm n2 s1 s2 sm)
+  | "fftplan", [n, l] => some (.plan n l)
+  | "rfftplan", [n, l] => some (.plan n l)
+  | "ifftplan", [n, l] => some (.plan n l)
+  | "fft", [l] => some (.fft l)
+  | "fftn", [l, n] => some (.fftn l n)
+  | "irfft", [l, n] => some (.irfft l n)
+  | "cztplan", [n, m, l] => some (.czt n m l)
+  | "firconv", [x, h] => some (.firconv x h)
+  | "fir", [h, x] => some (.fir h x)
+  | "fftfilt", h :: k :: fr => if fr.length = k.toNat then some (.fftfilt h fr) else none
+  | "polyphase", [h, m] => some (.polyphase h m)
+  | "decim", [d, h, x] => some (.decim d h x)
+  | "interp", [l, h, x] => some (.interp l h x)
+  | "rateconv", [l, m, h, x] => some (.rateconv l m h x)
+  | "resample", [x, p, q, h] => some (.resample x p q h)
+  | "zeropad", [x, n] => some (.zeropad x n)
+  | "repelem", [x, n] => some (.repelem x n)
+  | "delayseq", [n, d] => some (.delayseq n d)
+  | "downsample", [x, n, p] => some (.downsample x n p)
+  | "upsample", [x, n, p] => some (.upsample x n p)
+  | "finddelay", [x, y] => some (.finddelay x y)
+  | "linspace", [n] => some (.linspace n)
+  | "arange", [x, y, s] => some (.arange x y s)
+  | "to_complex", [n] => some (.toComplex n)
+  | "window", [n, s] => some (.window n (s != 0))
+  | "tukey", [n, rn, rd] => some (.tukey n rn rd)
+  | "kaiser", [n] => some (.kaiser n)
+  | "medianfilter", [n, x] => some (.medianfilter n x)
+  | "medfilt", [x, n] => some (.medfilt x n)
+  | "iscola", [w, o] => some (.iscola w o)
+  | "stft", [x, w, o, f, r] => some (.stft x w o f r)
+  | "istft", [s, l, w, o, f, r] => some (.istft s l w o f r)
+  | "welch", [x, w, o, f, c] => some (.welch x w o f c)
+  | "mscohere", [x, y, w, o, f] => some (.mscohere x y w o f)
+  | "lms", [n, x, d] => some (.lms n x d)
+  | "rls", [n, x, d] => some (.rls n x d)
+  | "delay", [n, x] => some (.delay n x)
+  | "xcorr", [x, y] => some (.xcorr x y)
+  | "hilbert", [n] => some (.hilbert n)
+  | _, _ => none
+
+def fmtOutcome : Outcome → String
+  | .ok [] => "ok"
+  | .ok s => "ok " ++ fmtInts s
+  | .throws => "ERR"
+  | .ub r => "UB:" ++ r.replace " " "_"
 
 def h05 : List String → Option String
+  | "guard" :: entry :: args => do
+    let a ← args.mapM parseI
+    let c ← parseCall entry a
+    some (fmtOutcome c.outcome)
   | _ => none
 
 end Dsp.Driver
